@@ -2,7 +2,7 @@
 import re, sys, json
 from tok_common import TokError, imm, parse_mark
 
-REG = re.compile(r"^X([0-9]|[12][0-9]|3[01])$")
+REG = re.compile(r"^X([0-9]|[12][0-9]|3[01])$", re.I)
 IDENT = re.compile(r"^[A-Za-z_.$][\w.$]*$")
 SHAPES = {  # mnemonic -> operand kinds (r register, i immediate, l label, x register-or-immediate)
     "ADD": "rrx", "SUB": "rrr", "MUL": "rrr", "DIV": "rrr", "REM": "rrr", "JAL": "rl", "JALR": "rri", "LA": "rl",
@@ -24,7 +24,7 @@ PSEUDO = {
 
 def operand(kind, s):
     if kind in "rx" and REG.match(s):
-        return {"k": "reg", "r": s}
+        return {"k": "reg", "r": s.upper()}
     if kind in "ix" and re.match(r"^-?\d+$", s):
         return imm(s)
     if kind == "l" and IDENT.match(s):
@@ -47,6 +47,7 @@ def tokenize(text):
             out.append({"op": "label", "l": l})
             continue
         parts = code.replace(",", " ").split()
+        parts[0] = parts[0].upper()
         if parts[0] in PSEUDO:
             try:
                 parts = PSEUDO[parts[0]](*parts[1:])
